@@ -13,7 +13,7 @@ SCALAR_CARRIERS = ['pyfloat', 'pyint', 'np.float64', 'np.float32', 'np.float16',
                    'np.int8', 'np.uint64', 'np.uint32', 'np.uint16', 'np.uint8', '0d-f64', '0d-i64', 'decstr', 'pybool']
 ARRAY_CARRIERS = ['ndarray-f64', 'ndarray-f32', 'ndarray-i64', 'ndarray-i32', 'ndarray-u8', 'list', 'tuple', 'nested-list',
                   'nested-tuple', 'list-decstr', 'ndarray-2d']
-ROUTES = ['ctor', 'call', 'set_val', 'setitem', 'setitem-slice', 'setitem-2d', 'call-reset', 'recfg']
+ROUTES = ['ctor', 'call', 'set_val', 'setitem', 'setitem-slice', 'setitem-2d', 'call-reset', 'recfg', 'setitem-reuse']
 _OTHER = {'trunc': 'around', 'fix': 'ceil', 'floor': 'trunc', 'ceil': 'floor', 'around': 'fix', 'saturate': 'wrap', 'wrap': 'saturate'}
 
 
@@ -184,6 +184,17 @@ def do_write(fx, np, route, obj, fmt, modes, n, raw=False):
         x.config.overflow = modes[1]
         x.reset()
         x.set_val(obj)
+        return x, x
+    if route == 'setitem-reuse':    # history: the array object was USED (anything cached about it exists), then written in place
+        from .x_arith import warm_up
+        scalar_in = np.ndim(obj) == 0 and not isinstance(obj, (list, tuple))
+        x = Fxp(np.arange(3 if scalar_in else n) % 2, s, w, f, **kw)
+        warm_up(fx, np, x)
+        x.reset()
+        if scalar_in:
+            x[1] = obj
+            return x, x[1]
+        x[0:n] = obj
         return x, x
     if route == 'setitem':          # scalar into one element of an array object
         x = Fxp(np.zeros(3), s, w, f, **kw)
